@@ -85,6 +85,11 @@ def run(tier, seed):
                 ub = "(%s*%s)" % (rng.choice(g.prefixes), ub) if not ub.startswith("((") else ub
         else:
             ub, _ = g.pair()
+            if op in ("mul", "div") and rng.random() < 0.5:
+                # the other operand in (a prefixed form of) the same unit: a quotient of like quantities is where a shortcut would go
+                ub = rng.choice([ua, ua2])
+                if rng.random() < 0.7 and not ub.startswith("(("):
+                    ub = "(%s*%s)" % (rng.choice(g.prefixes + g.prefixes2), ub)
         ma, mb = rng.choice([3, 2.5, 40, 0.125]), rng.choice([2, 7.5, 0.5])
         try:
             bad = c06_check(ua, ua2, ub, ma, mb, op, ns)
